@@ -40,6 +40,9 @@ pub mod options;
 pub mod os;
 #[cfg(feature = "test_private")]
 pub mod test_private;
+/// Verification seam for deterministic simulation (only with `--cfg mmtk_verif`).
+#[cfg(mmtk_verif)]
+pub mod verif;
 /// Test utilities. We need this module for `MockVM` in criterion benches, which does not include code with `cfg(test)`.
 #[cfg(any(test, feature = "mock_test"))]
 pub mod test_util;
